@@ -252,7 +252,7 @@ def main():
             extra = list(run.get("args", []))
             extra += run.get("args_" + tier, [])
             jobs.append((run.get("pkg", "."), tags, run["harnesses"], extra))
-    nworkers = max(2, NCPU // max(1, len(jobs)))
+    nworkers = min(NCPU, max(4, (2 * NCPU) // max(1, len(jobs))))  # mild oversubscription: jobs differ a lot in length
     results = []
     with concurrent.futures.ThreadPoolExecutor(max_workers=max(1, min(len(jobs), NCPU))) as ex:
         futs = [ex.submit(run_engine, pkg, tags, hs, tier, seed, known_open, extra + ["-workers", str(nworkers)], outdir)
